@@ -137,7 +137,7 @@ func init() {
 	props["C08"] = simProp("whole-engine runs on a udp listener (reuseport group of 1..4 loops, IPv4 or IPv6 incl. zoned link-local sources): 1..6 simulated senders inject 1..14 datagrams of 0..65507 bytes (bias 0/1, read-buffer size +-1, maximum) in seeded interleavings with the loops; the handler consumes none/part/all with Read/Next/Discard and replies with Write, SendTo(other sender) and AsyncWrite; the simulated kernel knows which datagram each recvfrom returned, so the OnTraffic that follows must show exactly that payload (InboundBuffered, Peek(-1), truncated to the read buffer), that source as RemoteAddr, once per datagram, with nothing carried over; every sendto must be exactly one expected reply with exact bytes to the right address; non-trivial = at least two datagrams handled;"+sig,
 		"udp-datagrams-handled", "udp-partial-consumption", "udp-replies-checked", "udp-truncated")
 	props["C08"].variantsQ = []string{"default", "poll_opt"}
-	props["C07"] = simProp("same runs as C04/C06; oracle = the simulated kernel's ledger: any framework call on a closed or foreign descriptor number is a violation at that step (canaries grab freed numbers at once), every framework-created descriptor closed exactly once by the time Run returns, unix-socket file removed; non-trivial = a descriptor number was re-used or a connection closed;"+sig,
+	props["C07"] = simProp("same runs as C04/C06; oracle = the simulated kernel's ledger: any framework call on a closed or foreign descriptor number is a violation at that step (canaries grab freed numbers at once), every framework-created descriptor closed exactly once by the time Run returns, unix-socket file removed; in one sixth of the runs one descriptor-creating or -configuring call fails (socket, bind, listen, epoll_create1, eventfd, epoll_ctl ADD of an eventfd or listener, setsockopt, fcntl F_DUPFD; EMFILE/ENOMEM/EADDRINUSE/ENOPROTOOPT at a seeded call index; keep-alive option in a quarter of the runs) while the engine or client starts or while Dup/Register/Enroll duplicate a descriptor: Run/Client.Start must return with everything created so far closed and nothing still running may touch a closed number; leaks are classified by kind and origin (accepted / duplicated, never opened / left behind by a call that answered); non-trivial = a descriptor number was re-used or a connection closed;"+sig,
 		"fd-number-reused", "canary-grabbed")
 }
 
